@@ -165,6 +165,19 @@ CLAIMED = {
         technique="contract-based deductive verification: bounds/address contracts, VCs from clang's AST, z3/cvc5 "
                   "with uninterpreted-product abstraction plus Lean-proved arithmetic lemma instances",
     ),
+    'C17': dict(
+        category='proof',
+        text="cdata_richcompare and cdata_hash are verified as dispatch contracts: two pointer-like cdata (pointer, "
+             "array, struct, function) compare with all six operators exactly as their addresses, a pointer-like "
+             "cdata against anything else gives NotImplemented, integer cdata compare with integer cdata and with "
+             "Python ints exactly as the Python values they convert to (through convert_to_object's contract), "
+             "integer cdata hash as that Python int and pointer-like cdata hash by address; two congruence lemmas "
+             "give a == b ==> hash(a) == hash(b).",
+        design_ref='DESIGN.md section 4 C17',
+        note=COMMON_NOTE + "T-API: PyObject_RichCompare / PyObject_Hash on int objects are functions of the values. "
+             "Float, char, complex and _Bool cdata go through the same dispatch but are outside the proved scope.",
+        technique="contract-based deductive verification: dispatch contracts, VCs from clang's AST, z3/cvc5",
+    ),
     'C22': dict(
         category='proof',
         text="The sequential half of the statement is verified on the four errno functions with the saved errno "
@@ -193,6 +206,23 @@ CLAIMED = {
              "FFILibrary class (properties, __getattr__).",
         technique="contract-based deductive verification: closed-flag invariant through frame obligations, ghost "
                   "call traces; cvc + pyvc",
+    ),
+    'C23': dict(
+        category='proof', engine='pyvc',
+        text="_make_c_or_py_source is verified over a ghost file system with one externally visible state per I/O "
+             "call: identical content => no write, no rename, no scratch file, result False; otherwise result True, "
+             "the final target content is the new text, the text is written to a scratch file (never to the target "
+             "path), reaches the target by exactly one rename, and after every I/O call the target path holds the "
+             "complete old or the complete new content. Determinism is decided by a set-iteration audit of the "
+             "files on the emission path: every order-exposing use of a set is under sorted() or on a provably "
+             "singleton set, and no hash()/id() reaches emitted text.",
+        design_ref='DESIGN.md section 4 C23',
+        note="Trusted: z3 strings; vf/pyexec.py and vf/pyaudit.py (syntactic set-type inference); the I/O calls "
+             "succeed and os.rename is atomic and does not fail (crash points, not faults: the unlink+rename fallback "
+             "after a failed rename is not atomic and outside the claim). Not decided: other sources of "
+             "non-determinism (global caches, cdef version counter).",
+        technique="contract-based deductive verification over a ghost file system (pyvc) + set-iteration audit as "
+                  "determinism obligations",
     ),
     'C25': dict(
         category='proof',
